@@ -76,10 +76,49 @@ structure SchemaFile where
   comps : List Component
 deriving Repr, Inhabited
 
+structure Part where
+  name : String
+  elemNs : Nat
+  elemName : String
+deriving Repr, Inhabited
+
+structure Message where
+  name : String
+  parts : List Part
+deriving Repr, Inhabited
+
+/-- one direction of a bound operation: explicit `parts` of the body (or none), header part names -/
+structure BoundDir where
+  message : String
+  bodyParts : Option String
+  headers : List String
+deriving Repr, Inhabited
+
+structure Operation where
+  name : String
+  soapAction : Option (String × String)     -- raw attribute text, its `reqwest::Url` Display
+  input : BoundDir
+  output : Option BoundDir
+deriving Repr, Inhabited
+
+/-- a document/literal WSDL; its inline schema is `files[schemaFile]` (target namespace = the WSDL's) -/
+structure Wsdl where
+  fileName : String
+  schemaFile : Nat
+  messages : List Message
+  portType : String
+  binding : String
+  ops : List Operation
+  service : String
+  port : String
+  address : String × String                  -- raw attribute text, its `reqwest::Url` Display
+deriving Repr, Inhabited
+
 structure SchemaSet where
   uris : List String
   files : List SchemaFile
   start : Nat
+  wsdl : Option Wsdl := none
 deriving Repr, Inhabited
 
 /-! ### rendering to XML text -/
@@ -177,6 +216,34 @@ def renderSchemaOpen (s : SchemaSet) (f : SchemaFile) (ind : String) : String :=
 def renderFile (s : SchemaSet) (f : SchemaFile) : String :=
   "<?xml version=\"1.0\" encoding=\"UTF-8\"?>\n" ++ renderSchemaOpen s f "" ++ renderImports s f ++
   String.join (f.comps.map (renderComponent f)) ++ "</xs:schema>\n"
+
+def renderBoundDir (tag : String) (d : BoundDir) : String :=
+  "      <wsdl:" ++ tag ++ ">\n" ++
+  String.join (d.headers.map fun h => "        <soap:header message=\"tns:" ++ xmlEsc d.message ++ "\" part=\"" ++ xmlEsc h ++ "\" use=\"literal\"/>\n") ++
+  "        <soap:body" ++ (match d.bodyParts with | some p => " parts=\"" ++ xmlEsc p ++ "\"" | none => "") ++ " use=\"literal\"/>\n" ++
+  "      </wsdl:" ++ tag ++ ">\n"
+
+/-- the WSDL document; `tns` is bound to the WSDL's (= inline schema's) target namespace -/
+def renderWsdl (s : SchemaSet) (w : Wsdl) : String :=
+  match s.files[w.schemaFile]? with
+  | none => ""
+  | some f =>
+    let uri := uriOf s f.tns
+    "<?xml version=\"1.0\" encoding=\"UTF-8\"?>\n<wsdl:definitions xmlns:wsdl=\"http://schemas.xmlsoap.org/wsdl/\" xmlns:soap=\"http://schemas.xmlsoap.org/wsdl/soap/\" xmlns:xs=\"" ++ xsNs ++ "\" xmlns:tns=\"" ++ xmlEsc uri ++ "\"" ++
+    String.join ((f.prefixes.filter (fun p => p.2 != "tns")).map fun (ns, p) => " xmlns:" ++ p ++ "=\"" ++ xmlEsc (uriOf s ns) ++ "\"") ++
+    " targetNamespace=\"" ++ xmlEsc uri ++ "\" name=\"" ++ xmlEsc w.service ++ "\">\n  <wsdl:types>\n" ++
+    renderSchemaOpen s f "    " ++ renderImports s f ++ String.join (f.comps.map (renderComponent f)) ++ "    </xs:schema>\n  </wsdl:types>\n" ++
+    String.join (w.messages.map fun m => "  <wsdl:message name=\"" ++ xmlEsc m.name ++ "\">\n" ++
+      String.join (m.parts.map fun p => "    <wsdl:part name=\"" ++ xmlEsc p.name ++ "\" element=\"" ++ prefixOf f p.elemNs ++ ":" ++ xmlEsc p.elemName ++ "\"/>\n") ++
+      "  </wsdl:message>\n") ++
+    "  <wsdl:portType name=\"" ++ xmlEsc w.portType ++ "\">\n" ++
+    String.join (w.ops.map fun o => "    <wsdl:operation name=\"" ++ xmlEsc o.name ++ "\">\n      <wsdl:input message=\"tns:" ++ xmlEsc o.input.message ++ "\"/>\n" ++
+      (match o.output with | some d => "      <wsdl:output message=\"tns:" ++ xmlEsc d.message ++ "\"/>\n" | none => "") ++ "    </wsdl:operation>\n") ++
+    "  </wsdl:portType>\n  <wsdl:binding name=\"" ++ xmlEsc w.binding ++ "\" type=\"tns:" ++ xmlEsc w.portType ++ "\">\n    <soap:binding style=\"document\" transport=\"http://schemas.xmlsoap.org/soap/http\"/>\n" ++
+    String.join (w.ops.map fun o => "    <wsdl:operation name=\"" ++ xmlEsc o.name ++ "\">\n" ++
+      (match o.soapAction with | some (raw, _) => "      <soap:operation soapAction=\"" ++ xmlEsc raw ++ "\"/>\n" | none => "      <soap:operation soapAction=\"\"/>\n") ++
+      renderBoundDir "input" o.input ++ (match o.output with | some d => renderBoundDir "output" d | none => "") ++ "    </wsdl:operation>\n") ++
+    "  </wsdl:binding>\n  <wsdl:service name=\"" ++ xmlEsc w.service ++ "\">\n    <wsdl:port name=\"" ++ xmlEsc w.port ++ "\" binding=\"tns:" ++ xmlEsc w.binding ++ "\">\n      <soap:address location=\"" ++ xmlEsc w.address.1 ++ "\"/>\n    </wsdl:port>\n  </wsdl:service>\n</wsdl:definitions>\n"
 
 /-! ### reference elaboration (DESIGN.md §2.3) -/
 
@@ -329,6 +396,41 @@ def structLines (s : SchemaSet) : List String :=
           let leaf := leafOf s t
           if leaf == Leaf.gen uri (typeName n) || leaf == Leaf.prim (typeName n) then []
           else ["ALIAS\t" ++ uri ++ "\t" ++ typeName n ++ "\t" ++ leaf.render]
+
+/-- the element a part refers to, as the struct generated for it -/
+def partLeaf (s : SchemaSet) (p : Part) : String := (Leaf.gen (uriOf s p.elemNs) (typeName p.elemName)).render
+
+/-- the part that is the body of one direction: the explicitly named one, else the only part that no
+    header binds -/
+def bodyPart (m : Message) (d : BoundDir) : Option Part :=
+  match d.bodyParts with
+  | some n => m.parts.find? (fun p => p.name == n)
+  | none => m.parts.find? (fun p => !d.headers.contains p.name)
+
+def soapenvNs : String := "http://schemas.xmlsoap.org/soap/envelope/"
+
+/-- reference facts about the SOAP side (C05): one line per fact -/
+def wsdlLines (s : SchemaSet) : List String :=
+  match s.wsdl with
+  | none => []
+  | some w =>
+    let envelope (op : Operation) (dir : String) (d : BoundDir) : List String :=
+      match w.messages.find? (fun m => m.name == d.message) with
+      | none => []
+      | some m =>
+        let env := toPascalCase op.name ++ dir ++ "Envelope"
+        (match bodyPart m d with
+         | some p => ["ENVBODY\t" ++ env ++ "\t" ++ partLeaf s p ++ "\trename=" ++ p.elemName ++ "\tns=" ++ uriOf s p.elemNs]
+         | none => []) ++
+        d.headers.zipIdx.filterMap (fun (h, i) =>
+          (m.parts.find? (fun p => p.name == h)).map fun p =>
+            "ENVHEADER\t" ++ env ++ "\t" ++ toString i ++ "\t" ++ fieldName h ++ "\tOption\t" ++ partLeaf s p ++ "\trename=" ++ p.elemName ++ "\tns=" ++ uriOf s p.elemNs) ++
+        ["ENVELOPE\t" ++ env ++ "\theader=" ++ (if d.headers.isEmpty then "0" else "1")]
+    w.ops.flatMap (fun op =>
+      envelope op "Input" op.input ++ (match op.output with | some d => envelope op "Output" d | none => []) ++
+      ["METHOD\t" ++ typeName w.service ++ "\t" ++ fieldName op.name ++ "\targ=" ++ toPascalCase op.name ++ "InputEnvelope\tret=" ++
+        (match op.output with | some _ => toPascalCase op.name ++ "OutputEnvelope" | none => "()")]) ++
+    ["SERVICE\t" ++ typeName w.service ++ "\tlocation=" ++ w.address.2]
 
 end Ref
 
